@@ -102,6 +102,8 @@ def handwritten():
 def build_cases(tier, seed):
     n_mut, n_rand, n_garb = (1200, 200, 2500) if tier == "quick" else (30000, 2000, 60000)
     cases = handwritten()
+    from .. import eqstress as E
+    cases += E.programs()          # type equality out of phase / deep shared chains, through the checker
     cases += list(T.stream(seed, n_mut, n_rand))
     cases += list(G.stream(seed, n_garb))
     seen, out = set(), []
